@@ -96,6 +96,10 @@ StoreValue(rep) == CASE IsLine(rep, "STORED") -> B(TRUE) [] IsLine(rep, "NOT_STO
                      [] IsLine(rep, "NOT_FOUND") -> None [] OTHER -> [t |-> "exc", x |-> "MemcacheUnknownError"]
 ItemOf(items, k) == IF \E i \in DOMAIN items : items[i].k = k THEN (CHOOSE it \in { items[i] : i \in DOMAIN items } : it.k = k) ELSE Absent
 
+(* the method fills a dict keyed by the caller's key: a VALUE block for a key named twice overwrites the earlier one *)
+LastPerKey(items) == LET idx == SelectSeq([i \in DOMAIN items |-> i],
+                                          LAMBDA i : ~\E j \in (i + 1)..Len(items) : items[j].k = items[i].k)
+                     IN [n \in DOMAIN idx |-> items[idx[n]]]
 Interpret(ev, reps) ==
   LET nr == ev.nr IN
   CASE ev.op \in {"set", "add", "replace", "append", "prepend", "cas"} -> IF nr THEN B(TRUE) ELSE StoreValue(reps[1])
@@ -111,11 +115,12 @@ Interpret(ev, reps) ==
                         ELSE [t |-> "pair", a |-> Val(it.v), b |-> [t |-> "cas", n |-> it.cas]]
     [] ev.op = "get_many" ->
          IF ev.keys = <<>> THEN [t |-> "map", m |-> <<>>]
-         ELSE [t |-> "map", m |-> [i \in DOMAIN reps[1].items |-> <<reps[1].items[i].k, Val(reps[1].items[i].v)>>]]
+         ELSE LET its == LastPerKey(reps[1].items) IN [t |-> "map", m |-> [i \in DOMAIN its |-> <<its[i].k, Val(its[i].v)>>]]
     [] ev.op = "gets_many" ->
          IF ev.keys = <<>> THEN [t |-> "map", m |-> <<>>]
-         ELSE [t |-> "map", m |-> [i \in DOMAIN reps[1].items |->
-                  <<reps[1].items[i].k, [t |-> "pair", a |-> Val(reps[1].items[i].v), b |-> [t |-> "cas", n |-> reps[1].items[i].cas]]>>]]
+         ELSE LET its == LastPerKey(reps[1].items)
+              IN [t |-> "map", m |-> [i \in DOMAIN its |->
+                      <<its[i].k, [t |-> "pair", a |-> Val(its[i].v), b |-> [t |-> "cas", n |-> its[i].cas]]>>]]
     [] ev.op = "delete" -> IF nr THEN B(TRUE) ELSE B(IsLine(reps[1], "DELETED"))
     [] ev.op = "delete_many" -> B(TRUE)
     [] ev.op \in {"incr", "decr"} ->
